@@ -141,6 +141,27 @@ def run_kani(spec, tier):
             r.wall_s = time.time() - t0
             return r
         parsed = parse_kani(out)
+        if not parsed and spec['crate'] == 'gk':
+            # does a module that /repo's generator emitted for a corpus definition fail to compile?  (C13, second sentence)
+            txt = out + err
+            locs = re.findall(r'^error(?:\[E\d+\])?: ([^\n]*)\n\s+--> [^\n]*?/out/(\w+)\.rs:(\d+)', txt, re.M)
+            gen = [(m, mod, ln) for m, mod, ln in locs if mod != 'corpus']
+            if gen:
+                m, mod, ln = gen[0]
+                table = ''
+                try:
+                    table = next((l for l in open(os.path.join(BUILD, 'gk-gen', 'corpus_table.txt')).read().split('\n') if l.startswith(mod + ':')), '')
+                except Exception:
+                    pass
+                r.status = VIOLATION
+                r.reason = 'the module generated for corpus definition %s does not compile' % mod
+                r.obligations, r.discharged = 1, 0
+                r.failures.append({'function': 'truc::generator::generate', 'message': 'C13: the module generated for corpus definition %s does not compile: %s (%s.rs:%s)' % (mod, m, mod, ln),
+                                   'props': ['C13'], 'tags': ['C13'], 'gk_compile': {'module': mod, 'definition': table, 'errors': ['%s (%s.rs:%s)' % g for g in gen[:8]]},
+                                   'clauses': ['C13: generated module %s does not compile: %s' % (mod, m)]})
+                r.wall_s = time.time() - t0
+                r.raw = txt[-8000:]
+                return r
         if not parsed:
             r.status = INCONCLUSIVE
             r.reason = 'cargo kani produced no harness result (rc=%s): %s' % (rc, (err or out)[-1500:])
